@@ -614,6 +614,23 @@ TB3_EXEMPT = {
 }
 
 
+def _above_another_unsigned(f, e, x, c):
+    """c == 1 and a guard fact says `y < x` for another unsigned quantity y (so x >= 1)."""
+    if c != 1:
+        return False
+    xs = dstr(strip(x))
+    for k, (pol, a) in f.facts_at(e).items():
+        a = strip(a)
+        if isinstance(a, dict) and a.get('k') == 'bin' and a.get('op') == '<' and pol and dstr(strip(a['r'])) == xs:
+            l = strip(a['l'])
+            if isinstance(l, dict) and (l.get('tk') == 'uint' or (l.get('ty') or '').replace('const ', '').startswith(('size_t', 'unsigned', 'std::size_t')) or
+                                        (const_value(l) is not None and const_value(l) >= 0)):
+                return True
+        if isinstance(a, dict) and a.get('k') == 'bin' and a.get('op') == '<' and not pol and dstr(strip(a['l'])) == xs and const_value(a['r']) is not None and const_value(a['r']) >= 1:
+            return True
+    return False
+
+
 def rule_tb3(ctx, prog, rid, fns, control=False):
     """Unsigned position arithmetic: `x - c` (x unsigned, c a positive constant) used as an argument of
     a call or as a subscript wraps around to a huge value when x < c; x >= c must be known there
@@ -645,7 +662,7 @@ def rule_tb3(ctx, prog, rid, fns, control=False):
                 seen.add(key)
                 c = const_value(x['r'])
                 lo, hi = bounds(f, e, x['l'])
-                ok = lo >= c or lower_bound_on_all_paths(f, e, x['l'], c)
+                ok = lo >= c or lower_bound_on_all_paths(f, e, x['l'], c) or _above_another_unsigned(f, e, x['l'], c)
                 n += 1
                 if control:
                     bad += 0 if ok else 1
@@ -685,7 +702,7 @@ def rule_tb3(ctx, prog, rid, fns, control=False):
             xl, c, txt = site
             real = f.blocks[e['_b']]['ev'][e['_i']] if e.get('from_decl') else e      # stores() hands out a synthetic event for declarations
             lo, hi = bounds(f, real, xl)
-            ok = lo >= c or lower_bound_on_all_paths(f, real, xl, c)
+            ok = lo >= c or lower_bound_on_all_paths(f, real, xl, c) or _above_another_unsigned(f, real, xl, c)
             n += 1
             if control:
                 bad += 0 if ok else 1
@@ -835,7 +852,7 @@ def run(ctx):
         raise AnalysisBroken('format control failed')
     ctx.inst('C13.TB1', 'fixtures/controls.cc', 'controls: nvctl::DataAsFormat fires, nvctl::DataAsArgument is silent')
     ctx.check('C13.TB1', nf >= 200, 'printf-like calls', 'format:sites', 'src', '%d printf-like call sites examined' % nf)
-    ctx.check('C13.TB1', nb >= 30, 'buffer+length', 'buffer-length:sites', 'src', '%d (local array, length) call sites examined' % nb)
+    ctx.check('C13.TB1', nb >= 20, 'buffer+length', 'buffer-length:sites', 'src', '%d (local array, length) call sites examined' % nb)
     n3 = rule_tb3(ctx, prog, 'C13.TB1', [f for f in prog.functions.values() if not f.file.startswith('third_party')])
     if rule_tb3(ctx, fx, 'C13.TB1', [fx.fn('nvctl::UnderflowingPosition')], control=True) < 1 or \
             rule_tb3(ctx, fx, 'C13.TB1', [fx.fn('nvctl::GuardedPosition')], control=True) != 0:
